@@ -3,9 +3,11 @@ OUTSIDE = 'tbd'
 CHECKS = ['--div-by-zero-check', '--no-unwinding-assertions']  # cbmc 6 emits unwinding assertions by default; spin loops are cut instead
 def I(name, defs, steps, nthreads, bounds, **kw):
     d = {'name': name, 'src': 'drw.cpp', 'engine': 'cbmc-seq', 'steps': steps, 'spin_loops': True, 'defs': defs,
-         'unwind': 3, 'nthreads': nthreads, 'checks': CHECKS, 'timeout': 1500, 'must_reach': 'all', 'bounds': bounds}
+         'unwind': 3, 'nthreads': nthreads, 'checks': CHECKS, 'timeout': 600, 'must_reach': 'all', 'bounds': bounds, 'seq_unroll': True}
     d.update(kw)
     return d
 INSTANCES = [
-    I('n2', {'VF_N': 2, 'VF_READERS': 2, 'VF_LOCKW': 1, 'VF_TRYW': 1, 'VF_MUST': 7}, 4, 4, 'tbd'),
+    I('n1', {'VF_N': 1, 'VF_READERS': 2, 'VF_LOCKW': 1, 'VF_TRYW': 1, 'VF_MUST': 7}, 4, 4, 'tbd'),
+    I('n2r1', {'VF_N': 2, 'VF_READERS': 1, 'VF_LOCKW': 1, 'VF_TRYW': 1, 'VF_MUST': 7}, 4, 3, 'tbd'),
+    I('n2', {'VF_N': 2, 'VF_READERS': 2, 'VF_LOCKW': 1, 'VF_TRYW': 1, 'VF_MUST': 7}, 4, 4, 'tbd', tiers=['thorough'], timeout=1700),
 ]
